@@ -168,6 +168,11 @@ def constructed(rng):
             dd(0, s, x, t)
             dd(x, t, 0, s)
             dd(-P10[s], s, x, t)
+        for w in G.trunc_twins(rng, rng.choice((P10[s], -P10[s], 0)))[::2]:
+            # agrees with one / zero in its low 32 / 64 / 96 bits only
+            xs = rng.choice((3, -7, rng.randrange(-10 ** 6, 10 ** 6) or 1))
+            dd(xs, rng.randrange(0, 19), w, s)
+            dd(w, s, xs, rng.randrange(0, 19))
     # 7. integer operands at the type bounds
     for ty in OP_INT_TYPES:
         lo, hi = INT_TYPES[ty]
